@@ -5,6 +5,7 @@ package ir
 
 import (
 	"fmt"
+	"math"
 )
 
 // CloneModuleForOverrides creates a deep enough copy of a module for ProcessOverrides
@@ -200,15 +201,19 @@ func resolveOverrideValue(module *Module, idx int, constants PipelineConstants, 
 
 	// Use default initializer if available
 	if ov.Init != nil {
-		return evaluateGlobalExprAsFloat(module, *ov.Init, resolved)
+		return evaluateGlobalExprTyped(module, *ov.Init, resolved, typeIsIntegerScalar(module, ov.Ty))
 	}
 
 	return 0, fmt.Errorf("no value provided and no default initializer")
 }
 
-// evaluateGlobalExprAsFloat evaluates a global expression to a float64 value.
+// evaluateGlobalExprTyped evaluates a global expression to a float64 value.
 // Handles Literal, Override references (using already-resolved values), and binary ops.
-func evaluateGlobalExprAsFloat(module *Module, handle ExpressionHandle, resolved []float64) (float64, error) {
+// integer tells that the expression is known to have an integer type: override
+// initialisers carry their i32 and abstract literals as float literals, so the
+// type of the declaration and of the overrides referred to is what tells an
+// integer division apart.
+func evaluateGlobalExprTyped(module *Module, handle ExpressionHandle, resolved []float64, integer bool) (float64, error) {
 	if int(handle) >= len(module.GlobalExpressions) {
 		return 0, fmt.Errorf("global expression %d out of range", handle)
 	}
@@ -222,17 +227,23 @@ func evaluateGlobalExprAsFloat(module *Module, handle ExpressionHandle, resolved
 		}
 		return 0, fmt.Errorf("override %d not yet resolved", k.Override)
 	case ExprBinary:
-		left, err := evaluateGlobalExprAsFloat(module, k.Left, resolved)
+		// The operands of a comparison have a type of their own; those of every
+		// other operator have the type of the result.
+		operandsInteger := globalExprIsInteger(module, k.Left) || globalExprIsInteger(module, k.Right)
+		if !binaryYieldsBool(k.Op) {
+			operandsInteger = operandsInteger || integer
+		}
+		left, err := evaluateGlobalExprTyped(module, k.Left, resolved, operandsInteger)
 		if err != nil {
 			return 0, err
 		}
-		right, err := evaluateGlobalExprAsFloat(module, k.Right, resolved)
+		right, err := evaluateGlobalExprTyped(module, k.Right, resolved, operandsInteger)
 		if err != nil {
 			return 0, err
 		}
-		return EvalBinaryFloat(k.Op, left, right), nil
+		return evalBinaryTyped(k.Op, left, right, operandsInteger), nil
 	case ExprUnary:
-		val, err := evaluateGlobalExprAsFloat(module, k.Expr, resolved)
+		val, err := evaluateGlobalExprTyped(module, k.Expr, resolved, integer)
 		if err != nil {
 			return 0, err
 		}
@@ -241,7 +252,7 @@ func evaluateGlobalExprAsFloat(module *Module, handle ExpressionHandle, resolved
 		// Evaluate constant by looking at its init expression
 		if int(k.Constant) < len(module.Constants) {
 			c := &module.Constants[k.Constant]
-			return evaluateGlobalExprAsFloat(module, c.Init, resolved)
+			return evaluateGlobalExprTyped(module, c.Init, resolved, typeIsIntegerScalar(module, c.Type))
 		}
 		return 0, fmt.Errorf("cannot evaluate constant %d", k.Constant)
 	default:
@@ -284,9 +295,9 @@ func makeOverrideLiteral(module *Module, typeHandle TypeHandle, val float64) Lit
 				// NaN converts to false (Rust: f64 → bool is val == 1.0)
 				return Literal{Value: LiteralBool(val == 1.0)}
 			case ScalarSint:
-				return Literal{Value: LiteralI32(int32(val))}
+				return Literal{Value: LiteralI32(int32(int64(val)))}
 			case ScalarUint:
-				return Literal{Value: LiteralU32(uint32(val))}
+				return Literal{Value: LiteralU32(uint32(int64(val)))}
 			case ScalarFloat:
 				if scalar.Width == 8 {
 					return Literal{Value: LiteralF64(val)}
@@ -312,9 +323,105 @@ func EvalBinaryFloat(op BinaryOperator, left, right float64) float64 {
 			return 0
 		}
 		return left / right
+	case BinaryModulo:
+		if right == 0 {
+			return 0
+		}
+		return math.Mod(left, right) // truncated, like WGSL's % on integers and floats
+	case BinaryEqual:
+		return boolToFloat(left == right)
+	case BinaryNotEqual:
+		return boolToFloat(left != right)
+	case BinaryLess:
+		return boolToFloat(left < right)
+	case BinaryLessEqual:
+		return boolToFloat(left <= right)
+	case BinaryGreater:
+		return boolToFloat(left > right)
+	case BinaryGreaterEqual:
+		return boolToFloat(left >= right)
+	case BinaryAnd:
+		return float64(int64(left) & int64(right))
+	case BinaryExclusiveOr:
+		return float64(int64(left) ^ int64(right))
+	case BinaryInclusiveOr:
+		return float64(int64(left) | int64(right))
+	case BinaryLogicalAnd:
+		return boolToFloat(left != 0 && right != 0)
+	case BinaryLogicalOr:
+		return boolToFloat(left != 0 || right != 0)
+	case BinaryShiftLeft:
+		return float64(int64(left) << (uint64(right) & 31))
+	case BinaryShiftRight:
+		return float64(int64(left) >> (uint64(right) & 31))
 	default:
 		return 0
 	}
+}
+
+func boolToFloat(b bool) float64 {
+	if b {
+		return 1
+	}
+	return 0
+}
+
+// binaryYieldsBool reports whether op produces a bool whatever its operands are.
+func binaryYieldsBool(op BinaryOperator) bool {
+	switch op {
+	case BinaryEqual, BinaryNotEqual, BinaryLess, BinaryLessEqual, BinaryGreater, BinaryGreaterEqual,
+		BinaryLogicalAnd, BinaryLogicalOr:
+		return true
+	}
+	return false
+}
+
+// evalBinaryTyped is EvalBinaryFloat with the integer rules the float64 carrier
+// does not give for free: an integer quotient is truncated.
+func evalBinaryTyped(op BinaryOperator, left, right float64, integer bool) float64 {
+	r := EvalBinaryFloat(op, left, right)
+	if integer && op == BinaryDivide {
+		r = math.Trunc(r)
+	}
+	return r
+}
+
+func literalIsInteger(v LiteralValue) bool {
+	switch v.(type) {
+	case LiteralI32, LiteralU32, LiteralI64, LiteralU64, LiteralAbstractInt:
+		return true
+	}
+	return false
+}
+
+func typeIsIntegerScalar(module *Module, th TypeHandle) bool {
+	if int(th) < len(module.Types) {
+		if s, ok := module.Types[th].Inner.(ScalarType); ok {
+			return s.Kind == ScalarSint || s.Kind == ScalarUint
+		}
+	}
+	return false
+}
+
+// globalExprIsInteger reports whether a global (override-)expression has an
+// integer type, judged by its leaves.
+func globalExprIsInteger(module *Module, handle ExpressionHandle) bool {
+	if int(handle) >= len(module.GlobalExpressions) {
+		return false
+	}
+	switch k := module.GlobalExpressions[handle].Kind.(type) {
+	case Literal:
+		return literalIsInteger(k.Value)
+	case ExprOverride:
+		return int(k.Override) < len(module.Overrides) && typeIsIntegerScalar(module, module.Overrides[k.Override].Ty)
+	case ExprConstant:
+		return int(k.Constant) < len(module.Constants) && typeIsIntegerScalar(module, module.Constants[k.Constant].Type)
+	case ExprBinary:
+		return !binaryYieldsBool(k.Op) && globalExprIsInteger(module, k.Left)
+	case ExprUnary:
+		return globalExprIsInteger(module, k.Expr)
+	}
+	return false
 }
 
 // EvalUnaryFloat evaluates a unary operation on a float64 value.
@@ -429,7 +536,10 @@ func tryConstEval(kind ExpressionKind, arena []Expression, module *Module) (Expr
 		leftVal, leftLit, leftOk := arenaExprAsFloat(arena, module, k.Left)
 		rightVal, _, rightOk := arenaExprAsFloat(arena, module, k.Right)
 		if leftOk && rightOk {
-			result := EvalBinaryFloat(k.Op, leftVal, rightVal)
+			result := evalBinaryTyped(k.Op, leftVal, rightVal, literalIsInteger(leftLit.Value))
+			if binaryYieldsBool(k.Op) {
+				return Literal{Value: LiteralBool(result == 1.0)}, true
+			}
 			return makeLiteralFromProto(leftLit, result), true
 		}
 	case ExprUnary:
@@ -859,9 +969,9 @@ func makeLiteralFromProto(proto Literal, val float64) Literal {
 	case LiteralBool:
 		return Literal{Value: LiteralBool(val == 1.0)}
 	case LiteralI32:
-		return Literal{Value: LiteralI32(int32(val))}
+		return Literal{Value: LiteralI32(int32(int64(val)))}
 	case LiteralU32:
-		return Literal{Value: LiteralU32(uint32(val))}
+		return Literal{Value: LiteralU32(uint32(int64(val)))}
 	case LiteralF32:
 		return Literal{Value: LiteralF32(float32(val))}
 	case LiteralF64:
@@ -887,7 +997,7 @@ func evaluateGlobalInitializers(module *Module, resolved []float64) {
 			continue
 		}
 		// Try to evaluate the initializer expression to a constant
-		val, err := evaluateGlobalExprAsFloat(module, initHandle, resolved)
+		val, err := evaluateGlobalExprTyped(module, initHandle, resolved, typeIsIntegerScalar(module, gv.Type))
 		if err != nil {
 			continue // Can't evaluate — leave as-is
 		}
